@@ -27,7 +27,7 @@ func init() {
 			"let no sub-reconciler error leave Reconcile other than through that mapping. It does not decide what the API server's dry run accepts nor the contents of the RESTMapper.",
 		NotDecided: []string{"what the server-side dry run accepts (API server, trusted)", "RESTMapper contents / discovery freshness",
 			"calls of plain function values (CheckerFn) are not followed by the call closure",
-			"a preflight moved into a helper or closure of ReconcilePhase is not followed (reported as a violation, never passed silently)",
+			"a preflight moved into a closure of ReconcilePhase, or into a callee that is reached through an interface or a function value, is not followed (reported as a violation, never passed silently); a statically called helper is followed through its returns",
 			"R1 accepts any successful checker.Check in the same function as the guard of a teardown/template write; identity of checked and written object is decided by R5 / C18.R2",
 			"that the multi-cluster phase manager's target cluster confines objects (out of the property's scope: same-cluster only)"},
 		Technique: "SSA guard-dominance dataflow + CHA call closure (who-may-write) + constructor-wiring resolution + path-cut reachability over guard edges (return classification)",
@@ -59,20 +59,24 @@ func c11IsCheckAllInPhase(cc *ssa.CallCommon) bool {
 	return pfCheckerIface(ps.At(1).Type(), pfObjCheckSig) && namedTypeString(ps.At(3).Type()) == pkgCoreV1+".ObjectSetTemplatePhase"
 }
 
-// c11PreflightGuard: at `site`, a preflight of the same activation is known to have succeeded.
+func c11IsPreflightCall(cc *ssa.CallCommon) bool {
+	return c11IsCheckAllInPhase(cc) || pfObjCheckSig(cc.Signature())
+}
+
+// c11PreflightGuard: at `site`, a preflight of the same activation is known to have succeeded —
+// a checker call of the function itself, or of a callee whose outcome the function tested
+// (pfPassedViaCallee). A site whose guard facts are contradictory never executes.
 func (p *Program) c11PreflightGuard(site ssa.Instruction) (bool, string) {
 	fn := site.Parent()
 	fs := p.FactsAt(site.Block())
-	for _, c := range callsIn(fn) {
-		call, ok := c.Instr.(*ssa.Call)
-		if !ok {
-			continue
-		}
-		if c11IsCheckAllInPhase(c.Common) || pfObjCheckSig(c.Common.Signature()) {
-			if p.pfSuccess(fs, call) && p.mustPrecede(site, func(in ssa.Instruction) bool { return in == ssa.Instruction(call) }) {
-				return true, fmt.Sprintf("%s guarded by %s==(∅,nil) in %s", p.IPos(site), calleeName(c.Common), shortFuncID(fn))
-			}
-		}
+	if pfContradictory(fs) {
+		return true, fmt.Sprintf("%s in %s never executes (its guards contradict each other)", p.IPos(site), shortFuncID(fn))
+	}
+	precedes := func(call *ssa.Call) bool {
+		return p.mustPrecede(site, func(in ssa.Instruction) bool { return in == ssa.Instruction(call) })
+	}
+	if ok, why := p.pfPassedIn(fn, fs, pfAssume{}, precedes, c11IsPreflightCall, nil, 0); ok {
+		return true, fmt.Sprintf("%s guarded by %s", p.IPos(site), why)
 	}
 	return false, ""
 }
@@ -177,55 +181,18 @@ func c11r1(c *Ctx) {
 				problems = append(problems, "phase argument "+p.describe(args[3])+" is not the phase parameter")
 			}
 			// the checked slice is the slice whose elements flow into the write-reaching calls guarded by this check
-			guarded := 0
-			for _, k := range callsIn(fn) {
-				if k.Instr == ssa.Instruction(call) || p.pfCallWrites(k) == nil {
-					continue
-				}
-				if !p.pfSuccess(p.FactsAt(k.Instr.Block()), call) {
-					continue
-				}
-				guarded++
-				same := false
-				for _, a := range k.Common.Args {
-					if p.pfDerives(a, func(v ssa.Value) bool {
-						ia, ok := v.(*ssa.IndexAddr)
-						return ok && p.sameValue(ia.X, args[4])
-					}) {
-						same = true
-					}
-				}
-				if !same {
-					problems = append(problems, "the objects passed to "+calleeName(k.Common)+" at "+p.IPos(k.Instr)+" are not elements of the checked slice "+p.describe(args[4]))
-				}
-				if phasePrm != nil {
-					usesPhase := false
-					for _, a := range k.Common.Args {
-						if p.pfDerives(a, pfIsValue(phasePrm)) {
-							usesPhase = true
-						}
-					}
-					if !usesPhase {
-						problems = append(problems, "the call "+calleeName(k.Common)+" at "+p.IPos(k.Instr)+" does not take its phase object from the checked phase")
-					}
-				}
+			guarded, probs := p.c11JudgeGuardedCalls(c11Scope{
+				fn: fn, skip: call, objs: args[4], phasePrm: phasePrm,
+				passed: func(fs []Fact) bool { return p.pfSuccess(fs, call) },
+			})
+			problems = append(problems, probs...)
+			if guarded == 0 && len(problems) == 0 {
+				// the preflight lives in a helper: the calls it guards are those of the helper's callers
+				guarded, probs = p.c11JudgeThroughCallers(fn, call, recv, phasePrm)
+				problems = append(problems, probs...)
 			}
 			if guarded == 0 {
 				problems = append(problems, "no write-reaching call is guarded by this preflight")
-			}
-			// identity setters must not run on the checked objects after the check (same package closure)
-			for _, k := range callsIn(fn) {
-				if !p.pfSuccess(p.FactsAt(k.Instr.Block()), call) {
-					continue
-				}
-				for _, callee := range p.pfCallees(k.Common) {
-					if funcPkgPath(callee) != funcPkgPath(fn) {
-						continue
-					}
-					if p.c11ClosureSetsIdentity(callee) {
-						problems = append(problems, "after the check, "+shortFuncID(callee)+" (called at "+p.IPos(k.Instr)+") may change namespace/name/kind of a dynamic object")
-					}
-				}
 			}
 			if len(problems) == 0 {
 				o.OK(fmt.Sprintf("%d write-reaching call(s) take elements of the checked slice", guarded))
@@ -296,6 +263,133 @@ func c11r1(c *Ctx) {
 	default:
 		o.OK(notes...)
 	}
+}
+
+// c11Scope: a function in which a successful preflight (passed) guards write-reaching calls; objs is
+// the checked slice and phasePrm the checked phase as values of that function.
+type c11Scope struct {
+	fn       *ssa.Function
+	skip     ssa.Instruction // the preflight call (or the call of the helper performing it)
+	objs     ssa.Value
+	phasePrm *ssa.Parameter
+	passed   func(fs []Fact) bool
+}
+
+// c11JudgeGuardedCalls: every write-reaching call behind the successful preflight takes an element
+// of the checked slice and its phase object from the checked phase; nothing behind it re-addresses a
+// dynamic object.
+func (p *Program) c11JudgeGuardedCalls(sc c11Scope) (guarded int, problems []string) {
+	fn := sc.fn
+	for _, k := range callsIn(fn) {
+		if k.Instr == sc.skip || p.pfCallWrites(k) == nil {
+			continue
+		}
+		if !sc.passed(p.FactsAt(k.Instr.Block())) {
+			continue
+		}
+		guarded++
+		same := false
+		for _, a := range k.Common.Args {
+			if p.pfDerives(a, func(v ssa.Value) bool {
+				ia, ok := v.(*ssa.IndexAddr)
+				return ok && p.sameValue(ia.X, sc.objs)
+			}) {
+				same = true
+			}
+		}
+		if !same {
+			problems = append(problems, "the objects passed to "+calleeName(k.Common)+" at "+p.IPos(k.Instr)+" are not elements of the checked slice "+p.describe(sc.objs))
+		}
+		if sc.phasePrm != nil {
+			usesPhase := false
+			for _, a := range k.Common.Args {
+				if p.pfDerives(a, pfIsValue(sc.phasePrm)) {
+					usesPhase = true
+				}
+			}
+			if !usesPhase {
+				problems = append(problems, "the call "+calleeName(k.Common)+" at "+p.IPos(k.Instr)+" does not take its phase object from the checked phase")
+			}
+		}
+	}
+	// identity setters must not run on the checked objects after the check (same package closure)
+	for _, k := range callsIn(fn) {
+		if k.Instr == sc.skip || !sc.passed(p.FactsAt(k.Instr.Block())) {
+			continue
+		}
+		for _, callee := range p.pfCallees(k.Common) {
+			if funcPkgPath(callee) != funcPkgPath(fn) {
+				continue
+			}
+			if p.c11ClosureSetsIdentity(callee) {
+				problems = append(problems, "after the check, "+shortFuncID(callee)+" (called at "+p.IPos(k.Instr)+") may change namespace/name/kind of a dynamic object")
+			}
+		}
+	}
+	return guarded, problems
+}
+
+// c11JudgeThroughCallers: the preflight `call` is made in helper fn, which guards nothing itself.
+// Every caller has to hand the helper its own receiver, owner parameter and phase parameter (so that
+// what was said about the helper's arguments holds for the caller's), and the calls the caller makes
+// after the helper reported success are judged against the slice it passed for the checked one.
+func (p *Program) c11JudgeThroughCallers(fn *ssa.Function, call *ssa.Call, recv, phasePrm *ssa.Parameter) (guarded int, problems []string) {
+	args := call.Common().Args
+	paramIndex := func(f *ssa.Function, v ssa.Value) int {
+		for i, q := range f.Params {
+			if ssa.Value(q) == stripConv(v) {
+				return i
+			}
+		}
+		return -1
+	}
+	objsIdx := paramIndex(fn, args[4])
+	ownerIdx := -1
+	if oc, _ := asCall(args[2]); oc != nil {
+		ownerIdx = paramIndex(fn, callRecv(oc.Common()))
+	}
+	phaseIdx, recvIdx := -1, -1
+	if phasePrm != nil {
+		phaseIdx = paramIndex(fn, phasePrm)
+	}
+	if recv != nil {
+		recvIdx = paramIndex(fn, recv)
+	}
+	if objsIdx < 0 || ownerIdx < 0 || phaseIdx < 0 || recvIdx < 0 {
+		return 0, nil // not a helper over (receiver, owner, phase, objects): reported as unguarded
+	}
+	if fn.Parent() != nil || p.addressTaken(fn) {
+		return 0, []string{shortFuncID(fn) + " performs the preflight but is used as a function value; its callers are unknown"}
+	}
+	callers := p.pfCallersCHA(fn)
+	for _, c := range callers {
+		k, isCall := c.Instr.(*ssa.Call)
+		if !isCall || staticCallee(c.Common) == nil || len(c.Common.Args) != len(fn.Params) {
+			problems = append(problems, shortFuncID(fn)+" performs the preflight and is reached at "+p.IPos(c.Instr)+" other than by a plain static call; its arguments cannot be related to the caller's")
+			continue
+		}
+		cf := c.Fn
+		if cf.Signature.Recv() == nil || len(cf.Params) == 0 || stripConv(c.Common.Args[recvIdx]) != ssa.Value(cf.Params[0]) {
+			problems = append(problems, "the preflight helper "+shortFuncID(fn)+" is called at "+p.IPos(c.Instr)+" on "+p.describe(c.Common.Args[recvIdx])+", not on the caller's own receiver (the wired checker)")
+		}
+		if _, isPrm := stripConv(c.Common.Args[ownerIdx]).(*ssa.Parameter); !isPrm {
+			problems = append(problems, "the owner handed to "+shortFuncID(fn)+" at "+p.IPos(c.Instr)+" is "+p.describe(c.Common.Args[ownerIdx])+", not the caller's owner parameter")
+		}
+		callerPhase := pfParam(cf, func(t types.Type) bool { return namedTypeString(t) == pkgCoreV1+".ObjectSetTemplatePhase" })
+		if callerPhase == nil || !p.pfDerives(c.Common.Args[phaseIdx], pfIsValue(callerPhase)) {
+			problems = append(problems, "the phase handed to "+shortFuncID(fn)+" at "+p.IPos(c.Instr)+" is "+p.describe(c.Common.Args[phaseIdx])+", not the caller's phase parameter")
+		}
+		g, probs := p.c11JudgeGuardedCalls(c11Scope{
+			fn: cf, skip: k, objs: c.Common.Args[objsIdx], phasePrm: callerPhase,
+			passed: func(fs []Fact) bool {
+				ok, _ := p.pfPassedViaCallee(fs, k, c11IsPreflightCall, call, 0)
+				return ok
+			},
+		})
+		guarded += g
+		problems = append(problems, probs...)
+	}
+	return guarded, problems
 }
 
 // c11SetsIdentity: fn calls SetNamespace/SetName/SetKind/... on an object it received as a parameter
@@ -429,10 +523,30 @@ func c11r2(c *Ctx) {
 
 	// (b) closure: every invoke of a phase-rollout implementation (a function that runs CheckAllInPhase)
 	// in the ObjectSet controller is behind that guard
-	rollout := func(f *ssa.Function) bool {
-		for _, cc := range callsIn(f) {
-			if c11IsCheckAllInPhase(cc.Common) {
-				return true
+	rolloutMemo := map[*ssa.Function]bool{}
+	rollout := func(f *ssa.Function) (is bool) {
+		// the function itself, or a same-package function it calls statically (the preflight step
+		// extracted into a helper), runs CheckAllInPhase
+		if v, done := rolloutMemo[f]; done {
+			return v
+		}
+		defer func() { rolloutMemo[f] = is }()
+		seen := map[*ssa.Function]bool{}
+		work := []*ssa.Function{f}
+		for len(work) > 0 {
+			g := work[len(work)-1]
+			work = work[:len(work)-1]
+			if seen[g] || funcPkgPath(g) != funcPkgPath(f) {
+				continue
+			}
+			seen[g] = true
+			for _, cc := range callsIn(g) {
+				if c11IsCheckAllInPhase(cc.Common) {
+					return true
+				}
+				if h := staticCallee(cc.Common); h != nil && len(h.Blocks) > 0 {
+					work = append(work, h)
+				}
 			}
 		}
 		return false
